@@ -319,6 +319,49 @@ func runC14(c *Ctx) {
 	if len(written) == 0 {
 		c.info("C14-R3", dbPkg+"#no-tx-in-context", token.NoPos, "no *sql.Tx is stored in a context")
 	}
+	// the callback of ORM.Transaction always runs inside a transaction of its own: it is invoked only from the closure
+	// handed to the driver's Transaction (after Begin), never directly on whatever the context already carries
+	if txFn := c.fn(dbPkg, "ORM.Transaction"); txFn != nil && len(txFn.Params) >= 3 {
+		cb := txFn.Params[len(txFn.Params)-1]
+		direct := 0
+		var at token.Pos
+		eachInstr(txFn, func(_ *ssa.BasicBlock, _ int, ins ssa.Instruction) {
+			call, ok := ins.(ssa.CallInstruction)
+			if !ok || call.Common().IsInvoke() {
+				return
+			}
+			isCb := call.Common().Value == ssa.Value(cb)
+			if u, ok := call.Common().Value.(*ssa.UnOp); ok && !isCb {
+				if al, ok := u.X.(*ssa.Alloc); ok { // the parameter is captured by the closure and therefore lives in a cell
+					for _, r := range refs(al) {
+						if st, ok := r.(*ssa.Store); ok && st.Addr == ssa.Value(al) && st.Val == ssa.Value(cb) {
+							isCb = true
+						}
+					}
+				}
+			}
+			if isCb {
+				// unless a savepoint statement was issued on every path to it
+				q := &pathQuery{fn: txFn, target: func(x ssa.Instruction) bool { return x == ins }, stop: func(x ssa.Instruction) bool {
+					c2, ok := x.(*ssa.Call)
+					if !ok {
+						return false
+					}
+					for _, a := range c2.Call.Args {
+						if s, ok := constString(a); ok && strings.Contains(strings.ToUpper(s), "SAVEPOINT") {
+							return true
+						}
+					}
+					return false
+				}}
+				if hit, _ := q.fromEntry(); hit != nil {
+					direct++
+					at = ins.Pos()
+				}
+			}
+		})
+		c.ob("C14-R3", fnKey(txFn)+"#callback-runs-in-its-own-transaction", at, direct == 0, "ORM.Transaction invokes its callback directly (without beginning a transaction or savepoint of its own, e.g. when the context already carries one): work of an inner transaction whose callback fails is not rolled back and is committed with the outer one")
+	}
 	// every executor the ORM invokes on its Database must, in the driver ORM.Transaction supports, take the
 	// transaction from the context: read the key and call a *sql.Tx method
 	if txFn := c.fn(dbPkg, "ORM.Transaction"); txFn != nil && len(written) > 0 {
